@@ -52,6 +52,8 @@ TIERS = {
         "dmg": [("dmg_fields_log2", dict(LogAlpha=ES((2, 1), (3, 0), (8, 0), (9, 0)), MaxLog=2, CutMode='"fields"')),
                 ("dmg_doubles_log3", dict(LogAlpha=ES((1, 0), (3, 0)), MaxLog=3, CutMode='"none"', Doubles="TRUE"))],
         "files": 2300, "rt_cases": 1500, "all_bits": False, "header_bits": 3, "payload_bits": 1,
+        # boundary refinement: every offset of the window at the resync chunk size (1 case each), 6 sampled offsets elsewhere
+        "bnd_cases_primary": 3, "bnd_sample": 6, "bnd_cases": 2,
         "vec_stride": 4099,
     },
     "thorough": {
@@ -64,6 +66,7 @@ TIERS = {
                 ("dmg_fields_log4", dict(LogAlpha=ES((1, 0), (3, 0)), MaxLog=4, CutMode='"fields"')),
                 ("dmg_doubles_log3", dict(LogAlpha=ES((2, 0), (3, 0), (8, 0), (9, 0)), MaxLog=3, CutMode='"none"', Doubles="TRUE"))],
         "files": 100000, "rt_cases": 20000, "all_bits": True, "header_bits": 32, "payload_bits": 2,
+        "bnd_cases_primary": 24, "bnd_sample": None, "bnd_cases": 12,
         "vec_stride": 1,
     },
 }
@@ -151,6 +154,119 @@ def sample_cases(corpus, alpha, cfg, rng):
     return chosen, {s: len(strata[s]) for s in names}
 
 
+# ------------------------------------------------------------------------------------------ boundary refinement
+
+def code_constants():
+    """Sizes of the read windows and buffers the CURRENT tree uses on the recovery path, read from its sources."""
+    def grab(rel, pattern, default):
+        try:
+            m = re.search(pattern, open(os.path.join(vlib.REPO, rel)).read())
+            return int(m.group(1).replace("_", "")) if m else default
+        except OSError:
+            return default
+    c = {
+        "resync_chunk": grab("pkg/engine/recovery.go", r"chunkSize\s*=\s*([0-9_]+)", None),
+        "header_size": grab("pkg/persistence/frame.go", r"HeaderSize\s*=\s*([0-9_]+)", 10),
+        "aof_write_buffer": grab("pkg/persistence/aof.go", r"DefaultAOFWriteBufferSize\s*=\s*([0-9_]+)", None),
+        "bufio_reader": grab("pkg/engine/recovery.go", r"bufio\.NewReaderSize\([^,]+,\s*([0-9_]+)\)", None),
+    }
+    if c["bufio_reader"] is None:       # bufio.NewReader: the default size of the Go release in use
+        try:
+            goroot = subprocess.run(["go", "env", "GOROOT"], cwd=vlib.REPO, env=vlib.goenv(), capture_output=True, text=True).stdout.strip()
+            m = re.search(r"defaultBufSize\s*=\s*(\d+)", open(os.path.join(goroot, "src/bufio/bufio.go")).read())
+            c["bufio_reader"] = int(m.group(1)) if m else 4096
+        except OSError:
+            c["bufio_reader"] = 4096
+    return c
+
+
+def boundaries(consts):
+    """primary = the resync read window (the scan starts one byte after the last good frame and reads windows of
+    that size); the others: its double, the bufio size, the writer's buffer, and the fall-back sweep"""
+    primary = consts["resync_chunk"] or 8192
+    others = {2 * primary, consts["bufio_reader"], consts["aof_write_buffer"] or 65536, 4096, 8192, 16384, 65536} - {primary, None}
+    return primary, sorted(b for b in others if 512 <= b <= 131072), max(12, consts["header_size"] + 2)
+
+
+def _frame_at(rec, alpha, pos):
+    """(1-based frame index, offset in the frame, abstract start of the frame) of abstract position pos"""
+    at = 1
+    for i, e in enumerate(rec["log"]):
+        n = 4 + len(alpha[e]["payload"])
+        if pos < at + n:
+            return i + 1, pos - at, at
+        at += n
+    return len(rec["log"]) + 1, 0, at
+
+
+def boundary_eligible(rec, alpha):
+    """cheap filter (the harness decides): one damage after which some surviving frame is reached by a
+    resynchronisation across a frame whose value can be sized (or across a long insertion), and a sizable,
+    uncoupled frame at or after it lets the file continue"""
+    if len(rec["dmg"]) != 1 or rec["out"] != "OK" or not rec["surv"]:
+        return False
+    log, surv, d = rec["log"], rec["surv"], rec["dmg"][0]
+    if d["k"] == "trunc":
+        return False
+    f_lo, off, _ = _frame_at(rec, alpha, d["a"])
+    if f_lo in surv and not (d["k"] == "ins" and off == 0):
+        return False                      # the damaged frame is still applied: nothing to resynchronise across
+    prev = max([s for s in surv if s < f_lo] + [0])
+    later = [s for s in surv if s > prev]
+    if not later:
+        return False
+    j = later[0]
+    between = list(range(prev + 1, j))    # frame indices the scan has to skip
+    sizable = lambda e: e % 16 in (2, 3)
+
+    def knob_kept(i):                     # the sizable run of frame i is not (partly) inside a deleted range
+        e = log[i - 1]
+        if not sizable(e):
+            return False
+        if d["k"] != "del":
+            return True
+        start = 1 + sum(4 + len(alpha[x]["payload"]) for x in log[:i - 1])
+        sym = (50 if e % 16 == 2 else 65) + e // 16
+        p = start + 4 + alpha[e]["payload"].index(sym)
+        return not (d["a"] <= p < d["b"])
+    gap_ok = (d["k"] == "ins" and d["b"] == 5) or any(knob_kept(i) for i in between)
+    tail_ok = any(sizable(log[k - 1]) and log[k - 1] not in [log[i - 1] for i in between] for k in range(j, len(log) + 1))
+    return gap_ok and tail_ok
+
+
+def boundary_cases(corpus, cfg, consts, rng):
+    primary, others, win = boundaries(consts)
+    pool = [r for r in corpus if boundary_eligible(r, BND_ALPHA[0])]
+    pool.sort(key=lambda r: json.dumps(r, sort_keys=True))
+    if not pool:
+        return [], primary, others, win
+    by_kind = {}
+    for r in pool:
+        by_kind.setdefault(field_of(r, BND_ALPHA[0]), []).append(r)
+    kinds = sorted(by_kind)
+    out = []
+
+    def add(b, d, n):
+        base = rng.randrange(len(kinds))
+        for k in range(n):
+            rec = rng.choice(by_kind[kinds[(base + k) % len(kinds)]])
+            c = dict(rec)
+            c.update(boundary=b, delta=d, variant=rng.choice([0, 1, 4, 5]), seed=rng.randrange(1 << 40))
+            out.append(c)
+    for d in range(-win, win + 1):
+        add(primary, d, cfg["bnd_cases_primary"])
+    for b in others:
+        ds = list(range(-win, win + 1))
+        if cfg["bnd_sample"]:
+            ds = rng.sample(ds, cfg["bnd_sample"])
+        for d in ds:
+            add(b, d, cfg["bnd_cases"])
+    return out, primary, others, win
+
+
+BND_ALPHA = [None]
+
+
 # ------------------------------------------------------------------------------------------ harness
 
 def _limit_memory():
@@ -170,7 +286,7 @@ def run_harness(binary, alpha_list, cases, opts, shards=None, timeout=3000):
         d = tempfile.mkdtemp(prefix="verif-c03-", dir="/dev/shm")
     else:
         d = vlib.scratch("c03-")
-    merged = {"divergences": [], "errors": [], "field_bits": {}, "kinds": {}}
+    merged = {"divergences": [], "errors": [], "field_bits": {}, "kinds": {}, "boundary_hits": {}}
     try:
         per = max(1, min(250, (len(cases) + shards - 1) // shards))
         pending = [cases[i:i + per] for i in range(0, len(cases), per)]
@@ -224,7 +340,7 @@ def run_harness(binary, alpha_list, cases, opts, shards=None, timeout=3000):
                 for k, v in res.items():
                     if k in ("divergences", "errors"):
                         merged[k] += v or []
-                    elif k in ("field_bits", "kinds"):
+                    elif k in ("field_bits", "kinds", "boundary_hits"):
                         for kk, vv in (v or {}).items():
                             merged[k][kk] = merged[k].get(kk, 0) + vv
                     elif k == "max_alloc_mb":
@@ -403,8 +519,11 @@ def judge(chk, merged, alpha_list, opts):
         reported += 1
         if reported <= 25:
             case = div.get("case") or {}
-            chk.violation("%s\ncase: log=%s damage=%s spec-survivors=%s variant=%s seed=%s" % (
-                text[:2500], case.get("log"), json.dumps(case.get("dmg")), case.get("surv"), case.get("variant"), case.get("seed")),
+            where = ""
+            if case.get("boundary"):
+                where = " first frame to resynchronise to placed %d%+d bytes after the last good frame" % (case["boundary"], case["delta"])
+            chk.violation("%s\ncase: log=%s damage=%s spec-survivors=%s variant=%s seed=%s%s" % (
+                text[:2500], case.get("log"), json.dumps(case.get("dmg")), case.get("surv"), case.get("variant"), case.get("seed"), where),
                 {"property": PROP, "checker": "vcodec", "alpha": alpha_list, "case": case, "opts": opts, "divergence": div})
     for e in merged.get("errors", []):
         chk.infra.append("harness error: " + e[:1500])
@@ -458,6 +577,12 @@ def run(tier):
         c = dict(rec)
         c.update(id="d%d" % n, variant=rng.randrange(8), seed=rng.randrange(1 << 40))
         cases.append(c)
+    consts = code_constants()
+    BND_ALPHA[0] = alpha
+    bcases, b_primary, b_others, b_win = boundary_cases(corpus, cfg, consts, rng)
+    for n, c in enumerate(bcases):
+        c["id"] = "b%d" % n
+    cases += bcases
     rt_corpus.sort(key=lambda r: json.dumps(r, sort_keys=True))
     if len(rt_corpus) > cfg["rt_cases"]:
         rt_corpus = rng.sample(rt_corpus, cfg["rt_cases"])
@@ -503,6 +628,19 @@ def run(tier):
             merged.get("degenerate", 0), merged.get("empty_class", 0), len(hdr_bits), merged.get("max_alloc_mb", 0),
             merged.get("amplified", 0),
             merged.get("rt_checks", 0), merged.get("frame_checks", 0), pats, legacy))
+    hits = merged.get("boundary_hits", {})
+    want_primary = {"%d:%+d" % (b_primary, d) for d in range(-b_win, b_win + 1)}
+    chk.cov["rule"] += (
+        "; boundary refinement: constants read from the tree %s -> first frame after the damage placed at every offset "
+        "%d..%d after the end of the last good frame (file continuing two more windows), %d/%d offsets executed at the "
+        "resync window, plus boundaries %s (%s): %d boundary files, %d requests not realisable for their case" % (
+            json.dumps(consts), b_primary - b_win, b_primary + b_win, len(want_primary & set(hits)), len(want_primary),
+            b_others, "every offset" if not cfg["bnd_sample"] else "%d sampled offsets each" % cfg["bnd_sample"],
+            sum(hits.values()), merged.get("boundary_na", 0)))
+    chk.cov["boundary_hits"] = hits
+    if len(want_primary & set(hits)) < len(want_primary):
+        chk.infra.append("vacuous boundary coverage: offsets %s around the resync window %d were not executed" % (
+            sorted(want_primary - set(hits)), b_primary))
     chk.cov["strata"] = strata
     chk.cov["files_by_damage_kind"] = merged.get("kinds", {})
     chk.cov["samples"] = [{"log": c["log"], "dmg": c["dmg"], "survivors": c["surv"], "out": c["out"]} for c in cases if c["kind"] == "dmg"][:4] + \
@@ -516,7 +654,8 @@ def run(tier):
         "binary contents beyond the classes are exercised only by the concrete refinement (seeded random bytes)",
         "command names are the engine's upper-case ASCII constants (ParseCommand upper-cases the name)",
         "the multi-byte length and checksum fields are one symbol each in the spec; their individual bits are covered by the refinement",
-        "resyncAOF's 8192-byte read window is not modelled; values larger than the window are part of the refinement",
+        "resyncAOF's read window and the bufio buffers are not modelled; the refinement places the first intact frame "
+        "after the damage at every offset of a window around those sizes (read from the tree) and uses values larger than them",
         "logs hold KV SET/DEL and VCREATE/VADD commands only (the GLINK/GUNLINK skip paths of replayAOF are outside)",
         "vectors stored in a real index are finite (incl. -0, denormals, max); NaN/Inf patterns are checked at codec level",
     ]
